@@ -11,12 +11,26 @@ from harness import gallina as G
 from harness.props import c01
 
 ID = "C04"
-COQ_DIRS = ["C01", "C04"]
+COQ_DIRS = ["C01", "C04"]      # Gen/C01_src.v, Gen/C01_equiv.v are built as dependencies of Property.v
 PROPERTY_FILE = "C04/Property.v"
 RUN_IMPORTS = "From TV Require Import C01.Model C04.Model C04.Run."
 RUN_FN = "run_case"
 CHECK_FN = "check_case"
-INPUT_TYPE = "(nat * N * option N * nat * bool * list gz_entry * list (list N))"
+INPUT_TYPE = "(nat * option N * N * option N * nat * bool * list gz_entry * list (list N))"
+DEFAULT_MAX_BUFFER = 104857600      # iostream.BaseIOStream: max_buffer_size or 104857600
+
+
+def pre_build():
+    """regenerate coq/Gen/C01_src.v (constants / comparison operators / accumulation forms of
+    tornado/http1connection.py) from the working tree; fails closed"""
+    import importlib
+    import os
+    import sys
+    from harness.framework import REPO, COQ
+    sys.path.insert(0, os.path.join(os.path.dirname(COQ), "translators"))
+    import c01_src
+    importlib.reload(c01_src)
+    c01_src.emit(REPO, os.path.join(COQ, "Gen", "C01_src.v"))
 
 
 def segs_of(case):
@@ -26,7 +40,8 @@ def segs_of(case):
 def run_impl(case):
     rec = []
     log, final, codes, extra = c01.serve_stream(segs_of(case), case["mh"], case["mb"], case["cs"],
-                                                override=case.get("ov"), decompress=case["dec"], gz_record=rec)
+                                                override=case.get("ov"), decompress=case["dec"], gz_record=rec,
+                                                stream_max_buffer=case.get("sbuf"))
     tbl = []
     for r in rec:
         if r[0] == "err":
@@ -55,15 +70,17 @@ def coq_input(case):
         else:
             ents.append("(Some (%s, %s, %s, %s, %s))" % (G.gnat(e[0]), G.gnat(e[1]), G.gbytes(e[2].encode("latin-1")), G.gnat(e[3]), G.gbool(e[4])))
     ov = case.get("ov")
-    return "(%s, %s, %s, %s, %s, %s, %s)" % (
-        G.gnat(case["mh"]), G.gn(case["mb"]), "(@None N)" if ov is None else "(Some %s)" % G.gn(ov),
+    mb = case["mb"]
+    return "(%s, %s, %s, %s, %s, %s, %s, %s)" % (
+        G.gnat(case["mh"]), "(@None N)" if mb is None else "(Some %s)" % G.gn(mb), G.gn(case.get("sbuf") or DEFAULT_MAX_BUFFER),
+        "(@None N)" if ov is None else "(Some %s)" % G.gn(ov),
         G.gnat(case["cs"]), G.gbool(case["dec"]), G.glist(ents, "gz_entry"),
         G.glist([G.gbytes(s) for s in segs_of(case)], "(list N)"))
 
 
-def mk(segs, mh=1000, mb=1000, ov=None, cs=64, dec=False, kind="", expect=None):
+def mk(segs, mh=1000, mb=1000, ov=None, cs=64, dec=False, kind="", expect=None, sbuf=None):
     segs = [bytes(s) for s in segs if len(s) > 0]
-    return {"mh": mh, "mb": mb, "ov": ov, "cs": cs, "dec": dec, "segs": [s.decode("latin-1") for s in segs],
+    return {"mh": mh, "mb": mb, "sbuf": sbuf, "ov": ov, "cs": cs, "dec": dec, "segs": [s.decode("latin-1") for s in segs],
             "kind": kind, "expect": expect}
 
 
@@ -268,6 +285,34 @@ def zero_limit_cases(rng):
     return out
 
 
+def unset_limit_cases(rng):
+    """max_body_size=None: the limit is the stream's max_buffer_size (HTTP1Connection.__init__)."""
+    out = []
+    SB = 3000
+    for n, sent in ((SB + 1, 5), (SB, 7), (50, 50)):
+        data = body_bytes(rng, sent)
+        head = b"POST /u HTTP/1.1\r\nHost: x\r\nContent-Length: %d\r\n\r\n" % n
+        out.append(mk([head, data], mb=None, sbuf=SB, kind="unset-limit cl n=%d" % n,
+                      expect=("reject-before-body",) if n > SB else None))
+        head = b"POST /u HTTP/1.1\r\nHost: x\r\nTransfer-Encoding: chunked\r\n\r\n"
+        out.append(mk([head, b"%x\r\n" % n + data], mb=None, sbuf=SB, kind="unset-limit chunked n=%d" % n,
+                      expect=("reject-before-body",) if n > SB else None))
+    for n in (SB - 1, SB + 1, SB * 10):
+        z = gzip.compress(b"\x00" * n)
+        head = b"POST /u HTTP/1.1\r\nHost: x\r\nContent-Encoding: gzip\r\nContent-Length: %d\r\n\r\n" % len(z)
+        out.append(mk([head, z + NEXT], mb=None, sbuf=SB, cs=1000, dec=True, kind="unset-limit gzip n=%d" % n,
+                      expect=("ok", [b"\x00" * n, b""]) if n <= SB else ("reject",)))
+    # the library default (100 MB)
+    for n in (DEFAULT_MAX_BUFFER, DEFAULT_MAX_BUFFER + 1):
+        head = b"POST /u HTTP/1.1\r\nHost: x\r\nContent-Length: %d\r\n\r\n" % n
+        out.append(mk([head, b"abc"], mb=None, kind="unset-limit default cl",
+                      expect=("reject-before-body",) if n > DEFAULT_MAX_BUFFER else None))
+        head = b"POST /u HTTP/1.1\r\nHost: x\r\nTransfer-Encoding: chunked\r\n\r\n"
+        out.append(mk([head, b"%x\r\nabc" % n], mb=None, kind="unset-limit default chunked",
+                      expect=("reject-before-body",) if n > DEFAULT_MAX_BUFFER else None))
+    return out
+
+
 def corpus_cases():
     import random
     rng = random.Random(4)
@@ -289,6 +334,7 @@ def gen_cases(rng, tier):
         out += limit_cases(rng, L, tier)
         out += override_cases(rng, L)
     out += zero_limit_cases(rng)
+    out += unset_limit_cases(rng)
     for mh in ((40, 64, 256) if tier == "quick" else (36, 40, 64, 256, 1000)):
         out += header_cases(rng, mh)
     for L in ((16, 64) if tier == "quick" else (1, 16, 64, 300)):
@@ -310,8 +356,9 @@ def gen_cases(rng, tier):
 
 
 def _bound(case):
-    eff = case["mb"] if case.get("ov") is None else case["ov"]
-    return max(case["mb"], eff) if case["dec"] else eff
+    mb = case["mb"] if case["mb"] is not None else (case.get("sbuf") or DEFAULT_MAX_BUFFER)
+    eff = mb if case.get("ov") is None else case["ov"]
+    return max(mb, eff) if case["dec"] else eff
 
 
 def py_check(case, o):
@@ -344,7 +391,7 @@ def py_check(case, o):
 
 
 def nontrivial(case, o):
-    return ("".join(case["segs"]), tuple(len(s) for s in case["segs"]), case["mh"], case["mb"], case.get("ov"), case["cs"], case["dec"])
+    return ("".join(case["segs"]), tuple(len(s) for s in case["segs"]), case["mh"], case["mb"], case.get("sbuf"), case.get("ov"), case["cs"], case["dec"])
 
 
 def classify(case, o):
@@ -377,7 +424,7 @@ ASSUMPTIONS = [
     "_GzipMessageDelegate.finish: decompressor.flush() returns no data (otherwise finish raises ValueError; not observed for any generated body)",
     "max_buffer_size (IOStream read buffer cap, default 100MB) is far above every limit used and is not modelled",
 ]
-RULE = ("limit 0 (a real configuration: no request bodies) x body sizes {0,1,50} x {Content-Length, chunked, gzip} x override {none,0,100}; limits L in {16,64,1000} (thorough adds 1,300) x body sizes {L-1,L,L+1,10L} x framing {Content-Length, chunked with random chunk splits, one declared chunk} "
+RULE = ("max_body_size=None with stream max_buffer_size 3000 and the 100 MB default (limit = buffer size), sizes at the limit +-1; limit 0 (a real configuration: no request bodies) x body sizes {0,1,50} x {Content-Length, chunked, gzip} x override {none,0,100}; limits L in {16,64,1000} (thorough adds 1,300) x body sizes {L-1,L,L+1,10L} x framing {Content-Length, chunked with random chunk splits, one declared chunk} "
         "x segmentations; per-request override below/above L; header blocks of mh-1, mh, mh+1, 10mh bytes; decompress_request with gzip bodies that inflate to "
         "{L-1,L,L+1,10L,100L} (compressible bombs and incompressible data, Content-Length and chunked, chunk_size 4..1000), corrupt/truncated/two-member gzip, "
         "decoder on with plain bodies; every chunk split of bodies of 3..5 bytes (thorough 0..7) around L=4; C01's request grammar under small limits")
